@@ -91,6 +91,13 @@ add("C12", "hand-written-operator-dicts", "some parse actions return a literal {
     g("select 2x from t", calls="normal_op"), g("merge into t using u on t.a = u.a when matched then delete", calls="normal_op"))
 add("C12", "keyword-argument-named-like-operation", "simple_op writes kwargs[op] = args: a keyword argument whose name is the operation's name is overwritten (normal_op keeps it)",
     g("select f(x, f => 1) from t"))
+# ---- C14
+add("C14", "parse-action-crashes", "parse actions that raise something other than ParseException on a shape they do not expect: to_pivot_column rolls back the end of the match, an r'..' string where only 'literal' is read, EXPLAIN INTO with a stage",
+    (X, dict(sql="SELECT a FROM t PIVOT ((a) FOR b IN (1))")), (X, dict(sql="SELECT a FROM t UNPIVOT (a FOR b IN (c AS r'x'))")), (X, dict(sql="explain into x @y select 1")))
+add("C14", "deep-nesting-recursion-error", "valid SQL nested about 20 deep through INTERVAL ( sub-query ) exhausts the interpreter's stack: RecursionError instead of a tree or ParseException",
+    (X, dict(sql="select " + "interval (select " * 20 + "a" + ") day" * 20)))
+add("C14", "optional-mandatory-parts", "mandatory parts that the grammar makes optional: CASE without WHEN, FOREIGN KEY without a body, ALTER TABLE ADD with nothing, MERGE without WHEN, COUNT(DISTINCT), a DELIMITER directive of blanks",
+    g("select case end from t"), g("create table t (a int, foreign key)"), g("alter table t add"), g("merge into t using s on a = b"), g("select count(distinct) from t"))
 # ---- C19
 add("C19", "charset-type-reshapes-options", "a column whose type carries CHARACTER SET is rebuilt by to_flat_column_type: nested options of the same column come out in another shape than on a column without it",
     g("create table t (a varchar(9) character set utf8 generated always as identity, b varchar(9) generated always as identity)"))
